@@ -22,6 +22,8 @@ REGISTRY = {
     "C16": ("vf.props.recheck_family", "C16"),
     "C06": ("vf.props.meta_family", "C06"),
     "C07": ("vf.props.meta_family", "C07"),
+    "C11": ("vf.props.cli_family", "C11"),
+    "C12": ("vf.props.cli_family", "C12"),
 }
 
 
@@ -60,9 +62,12 @@ def main():
             return 1
         return 2 if "inconclusive" in res else 0
 
-    n = args.n or harness.ncases(P.quick, P.thorough, tier)
+    n = args.n or harness.ncases(getattr(P, "quick", 0), getattr(P, "thorough", 0), tier)
     check = harness.Check(prop, tier, seed, getattr(P, "level", "exploration"))
-    cases = [P.gen(harness.rng_for(prop, seed, i), tier, i) for i in range(n)]
+    if hasattr(P, "gen_all"):
+        cases = P.gen_all(harness.rng_for(prop, seed, "all"), tier)
+    else:
+        cases = [P.gen(harness.rng_for(prop, seed, i), tier, i) for i in range(n)]
     timeout = getattr(P, "timeout", 60) * (1 if tier == "quick" else 3)
     results = harness.run_cases(P.run, cases, timeout=timeout, label=prop)
     for case, res in zip(cases, results):
